@@ -10,6 +10,14 @@ fn = getattr(mod, sys.argv[2])
 params = json.loads(sys.argv[3]) if len(sys.argv) > 3 else {}
 tl = float(sys.argv[4]) if len(sys.argv) > 4 else 60
 r = explore(lambda ctx: fn(ctx, **params), time_limit=tl)
-ent = r.pop("entered"); 
-print(json.dumps({k: v for k, v in r.items() if k not in ("samples",)}, indent=1, default=str)[:6000])
-print("entered", len(ent))
+print("paths", r["paths"], "wall", round(r["wall_s"],1), "solver", round(r["solver_s"],1), "checks", r["checks"], "timed_out", r["timed_out"], "unknown", r["unknown"], "realised", r["realised_paths"], r["realised_why"], "infeasible", r["infeasible"])
+print("outcomes", r["outcomes"]); print("notes", r["notes"])
+if r.get("fatal"): print(r["fatal"])
+seen=set()
+for v in r["violations"]:
+    k=(v["tag"], (v["info"] or "")[:60])
+    if k in seen: continue
+    seen.add(k)
+    w={k2:v2 for k2,v2 in v["witness"].items()}
+    print("VIOL", v["tag"], w); print("     ", (v["info"] or "")[-900:])
+print("entered", len(r["entered"]))
